@@ -229,10 +229,11 @@ structure Fixes where
   ofRuleCycle : Bool       -- FIX_C11_6: the sort and `check_cyclic` follow `nthChild.ofRule`
   utilsVerified : Bool     -- FIX_C12_1: `matches` inside utils / fix expansions must resolve
   rewriterCheckAlways : Bool  -- FIX_C12_2: rewriter references are checked without `rewriters:` too
+  rewriterCaptured : Bool  -- FIX_C12_3: a rewriter's fix may use the CAPTURED variables of the enclosing rule, not its transform keys
 deriving DecidableEq, Repr
 
-def Fixes.all : Fixes := ⟨true, true, true, true, true, true, true, true⟩
-def Fixes.none : Fixes := ⟨false, false, false, false, false, false, false, false⟩
+def Fixes.all : Fixes := ⟨true, true, true, true, true, true, true, true, true⟩
+def Fixes.none : Fixes := ⟨false, false, false, false, false, false, false, false, false⟩
 
 /-- bytes of an (ASCII) variable name as a `Name` -/
 def nameOfBytes (b : Bytes) : Name := b.map fun x => Char.ofNat x.toNat
